@@ -639,6 +639,11 @@ fn spawn_async_ao_list_in_task'''),
         ('array-keys-not-quoted', 'brush-core/src/commands.rs', "                                s.push_str(&escape::quote_if_needed(\n                                    key.to_string().as_str(),\n                                    escape::QuoteMode::SingleQuote,\n                                ));", "                                s.push_str(key.to_string().as_str());"),
         ('elements-not-separated', 'brush-core/src/commands.rs', "                            if i > 0 {\n                                s.push(' ');\n                            }", "                            if i > 1 {\n                                s.push(' ');\n                            }"),
     ],
+    'U24b': [
+        ('token-cut-one-byte-past-the-delimiter', 'brush-core/src/completion.rs', "            if word_is_delimiters {\n                if let Some(start) = word_start {\n                    tokens.push(CompletionToken {\n                        text: &input[start..i],", "            if word_is_delimiters {\n                if let Some(start) = word_start {\n                    tokens.push(CompletionToken {\n                        text: &input[start..i + 1],"),
+        ('token-start-reported-as-its-end', 'brush-core/src/completion.rs', "        tokens.push(CompletionToken {\n            text: &input[start..],\n            start,\n        });", "        tokens.push(CompletionToken {\n            text: &input[start..],\n            start: input.len(),\n        });"),
+        ('word-start-taken-one-byte-late', 'brush-core/src/completion.rs', "            // Start or continue a word\n            if word_start.is_none() {\n                word_start = Some(i);", "            // Start or continue a word\n            if word_start.is_none() {\n                word_start = Some(i + 1);"),
+    ],
     'U35': [
         ('handler-word-that-names-a-signal-resets-instead', 'brush-builtins/src/trap.rs', "            Ok(ExecutionResult::success())\n        } else {\n            let handler = &self.args[0];", "            Ok(ExecutionResult::success())\n        } else if self.args[0].parse::<TrapSignal>().is_ok() {\n            for signal in &self.args {\n                Self::remove_all_handlers(&mut context, signal.parse()?);\n            }\n            Ok(ExecutionResult::success())\n        } else {\n            let handler = &self.args[0];"),
         ('handler-also-installed-for-its-own-name', 'brush-builtins/src/trap.rs', "            for signal in &self.args[1..] {\n                signal_types.push(signal.parse()?);\n            }", "            for signal in &self.args {\n                if let Ok(s) = signal.parse() { signal_types.push(s); }\n            }"),
